@@ -208,7 +208,8 @@ FilterSpec gen_filter(Reader& r, int which, const std::deque<TestSpec>& tests) {
 }
 
 // what a long-lived registry sees between two runs
-enum ChangeKind { CH_NONE = 0, CH_REPLACE_FILTERS, CH_ADD_FILTER, CH_CLEAR_FILTERS, CH_ADD_TESTS, CH_REMOVE_FIRST, CH_REVERSE, CH_RUN_IGNORED_ON, CH_SEP_PROCESS_ON, CH_KINDS };
+enum ChangeKind { CH_NONE = 0, CH_REPLACE_FILTERS, CH_ADD_FILTER, CH_CLEAR_FILTERS, CH_ADD_TESTS, CH_REMOVE_FIRST, CH_REVERSE, CH_RUN_IGNORED_ON, CH_SEP_PROCESS_ON,
+                  CH_READD_REMOVED, CH_MOVE_TO_OTHER_REGISTRY, CH_CHURN, CH_KINDS };
 struct Change { ChangeKind kind; int which; std::vector<FilterSpec> fs; std::vector<size_t> new_tests; };
 
 int run_case(Reader& r, bool& nontrivial, std::string& desc) {
@@ -265,6 +266,7 @@ int run_case(Reader& r, bool& nontrivial, std::string& desc) {
             case CH_REPLACE_FILTERS: { c.which = (int)r.below(2); size_t m = r.below(4); for (size_t j = 0; j < m; j++) c.fs.push_back(gen_filter(r, c.which, tests)); break; }
             case CH_ADD_FILTER: c.which = (int)r.below(2); c.fs.push_back(gen_filter(r, c.which, tests)); break;
             case CH_CLEAR_FILTERS: c.which = (int)r.below(2); break;
+            case CH_CHURN: for (size_t j = 0; j < 2 && tests.size() < 40; j++) { c.new_tests.push_back(tests.size()); tests.push_back(gen_test(r, tests)); } break;
             case CH_ADD_TESTS: { size_t m = 1 + r.below(3); for (size_t j = 0; j < m && tests.size() < 40; j++) { c.new_tests.push_back(tests.size()); tests.push_back(gen_test(r, tests)); } break; }
             default: break;
             }
@@ -276,6 +278,8 @@ int run_case(Reader& r, bool& nontrivial, std::string& desc) {
     uint8_t extras = r.u8();
     bool via_installer = (extras & 1u) != 0;          // tests named and registered by TestInstaller objects into the current registry
     bool sep_process = (extras & 2u) != 0;            // setRunTestsInSeperateProcess() from the start
+    bool readd_last = (extras & 16u) != 0;            // before the first run: undo the last registration and register the same shell again
+    bool second_registry = (extras & 32u) != 0;       // before the first run: the same shell objects are registered in another TestRegistry, which is the one that runs
     bool through_runner = ((extras >> 2) & 3u) == 1;  // repetitions, -b, -s<seed>, -ri, -p and the filters go through CommandLineTestRunner
     if (through_runner) { for (auto& cs : changes) cs.clear(); n_changes = 0; tests.resize(n); if (ri_mode >= 2) ri_mode = 0; if (do_shuffle) seed = seed % 99999 + 1; }
     size_t total = tests.size();
@@ -323,11 +327,14 @@ int run_case(Reader& r, bool& nontrivial, std::string& desc) {
       if (has_ign && late_ri) verif::cls("between-runs:run-ignored-switched-on-with-ignored-tests"); }
     { static const char* rn[] = {"", "reps=1", "reps=2", "reps=3"}; verif::cls(rn[reps]); }
     if (via_installer) verif::cls("registered:through-TestInstaller");
+    if (readd_last && n > 0) verif::cls("registered:last-one-undone-and-registered-again");
+    if (second_registry) verif::cls("registered:same-shells-in-a-second-registry");
     if (sep_process) verif::cls("separate-process:from-start");
     if (through_runner) verif::cls(do_shuffle ? (reps > 1 ? "through-runner:shuffle-repeated" : "through-runner:shuffle") : "through-runner:no-shuffle");
     if (n_changes) verif::cls("between-runs:some-change");
     for (auto& cs : changes) for (auto& c : cs) {
-        static const char* cn[] = {"", "between-runs:filters-replaced", "between-runs:filter-added", "between-runs:filters-cleared", "between-runs:tests-added", "between-runs:first-test-removed", "between-runs:reverse", "between-runs:run-ignored-on", "between-runs:separate-process-on"};
+        static const char* cn[] = {"", "between-runs:filters-replaced", "between-runs:filter-added", "between-runs:filters-cleared", "between-runs:tests-added", "between-runs:first-test-removed", "between-runs:reverse", "between-runs:run-ignored-on", "between-runs:separate-process-on",
+                                   "between-runs:removed-shell-registered-again", "between-runs:shells-moved-to-another-registry", "between-runs:add-undo-add-readd"};
         if (c.kind != CH_NONE) verif::cls(cn[c.kind]);
     }
 
@@ -353,9 +360,14 @@ int run_case(Reader& r, bool& nontrivial, std::string& desc) {
         case CH_REVERSE: desc += "reverse"; break;
         case CH_RUN_IGNORED_ON: desc += "run-ignored on"; break;
         case CH_SEP_PROCESS_ON: desc += "separate process on"; break;
+        case CH_READD_REMOVED: desc += "register the last removed shell again"; break;
+        case CH_MOVE_TO_OTHER_REGISTRY: desc += "register the same shells in another registry and go on with that one"; break;
+        case CH_CHURN: desc += "add x, undo, add y, add x again:"; for (size_t i : c.new_tests) desc += " " + show_test(i); break;
         default: break;
         }
     }
+    if (readd_last) desc += "; last registration undone and repeated";
+    if (second_registry) desc += "; shells registered again in a second registry";
     if (via_installer) desc += "; TestInstaller";
     if (sep_process) desc += "; separate process";
     if (through_runner) desc += "; through the runner";
@@ -363,9 +375,10 @@ int run_case(Reader& r, bool& nontrivial, std::string& desc) {
 
     // ---------------- build the real thing
     SeamGuard guard;
-    SpyRegistry reg;
-    reg.setCurrentRegistry(&reg);
-    V_CHECK(TestRegistry::getCurrentRegistry() == &reg, "C02:current-registry", "getCurrentRegistry() does not return the registry made current");
+    SpyRegistry registries[2];                 // the second one only when the shells are moved into another registry
+    SpyRegistry* R = &registries[0];
+    R->setCurrentRegistry(R);
+    V_CHECK(TestRegistry::getCurrentRegistry() == R, "C02:current-registry", "getCurrentRegistry() does not return the registry made current");
     PlatformSpecificRunTestInASeperateProcess = sep_process_stub; g_sep_calls = 0;
     std::vector<std::unique_ptr<UtestShell>> shells;
     std::vector<std::unique_ptr<TestInstaller>> installers;
@@ -380,7 +393,7 @@ int run_case(Reader& r, bool& nontrivial, std::string& desc) {
     // registration: directly, or the way the TEST macro does it (a TestInstaller names the shell and adds it to the current registry)
     auto register_test = [&](size_t i) {
         if (via_installer) installers.emplace_back(new TestInstaller(*shells[i], tests[i].group.c_str(), tests[i].name.c_str(), "c02.cpp", (size_t)(100 + i)));
-        else reg.addTest(shells[i].get());
+        else R->addTest(shells[i].get());
     };
     for (size_t i = 0; i < n; i++) register_test(i);
     if (via_installer) for (size_t i = 0; i < n; i++) {
@@ -397,25 +410,66 @@ int run_case(Reader& r, bool& nontrivial, std::string& desc) {
         real_filters.emplace_back(tf);
         return tf;
     };
-    auto install = [&](int which) { if (which == 0) reg.setGroupFilters(heads[0]); else reg.setNameFilters(heads[1]); };
+    auto install = [&](int which) { if (which == 0) R->setGroupFilters(heads[0]); else R->setNameFilters(heads[1]); };
     for (int which = 0; which < 2; which++) { for (auto& f : filters[which]) heads[which] = make_filter(f)->add(heads[which]); install(which); }
     bool sep_on = false;
     if (!through_runner) {
-        if (run_ignored) reg.setRunIgnored();
-        if (sep_process) { reg.setRunTestsInSeperateProcess(); sep_on = true; }
+        if (run_ignored) R->setRunIgnored();
+        if (sep_process) { R->setRunTestsInSeperateProcess(); sep_on = true; }
     }
     if (scripted) { PlatformSpecificSrand = scripted_srand; PlatformSpecificRand = scripted_rand; }
 
     std::vector<int> order, prev;
-    if (int rc = check_walk("after registration", reg, present, order)) return rc;
+    if (int rc = check_walk("after registration", *R, present, order)) return rc;
     auto reverse_checked = [&]() -> int {
         prev = order;
-        reg.reverseTests();
-        if (int rc = check_walk("after reverseTests", reg, present, order)) return rc;
+        R->reverseTests();
+        if (int rc = check_walk("after reverseTests", *R, present, order)) return rc;
         std::reverse(prev.begin(), prev.end());
         V_CHECK(prev == order, "C02:reverse-not-reversed", "reverseTests gave %s, expected %s", show_ids(order).c_str(), show_ids(prev).c_str());
         return 0;
     };
+    // ---- registration histories: "registered" = handed to addTest and not undone since, whatever list the shell was in before
+    std::vector<int> removed;                    // shells taken out by an undo, most recent last
+    size_t runs_on_current_registry = 0;
+    auto undo_first = [&](const char* when) -> int {
+        int gone = order[0];
+        if (via_installer && !installers.empty()) installers.back()->unDo(); else R->unDoLastAddTest();   // TestInstaller::unDo() == undo the last addTest of the current registry
+        present.erase(std::find(present.begin(), present.end(), gone));
+        removed.push_back(gone);
+        std::vector<int> expect(order.begin() + 1, order.end());
+        if (int rc = check_walk(when, *R, present, order)) return rc;
+        V_CHECK(order == expect, "C02:remove-first", "%s: left %s, expected %s", when, show_ids(order).c_str(), show_ids(expect).c_str());
+        return 0;
+    };
+    auto register_checked = [&](int id, const char* when) -> int {   // the shell may carry a stale next pointer from an earlier list
+        std::vector<int> expect; expect.push_back(id); expect.insert(expect.end(), order.begin(), order.end());
+        register_test((size_t)id);
+        present.push_back(id); std::sort(present.begin(), present.end());
+        auto it = std::find(removed.begin(), removed.end(), id); if (it != removed.end()) removed.erase(it);
+        if (int rc = check_walk(when, *R, present, order)) return rc;
+        V_CHECK(order == expect, "C02:registered-again", "%s: registry is %s, expected %s [%s]", when, show_ids(order).c_str(), show_ids(expect).c_str(), desc.c_str());
+        return 0;
+    };
+    auto move_to_other_registry = [&]() -> int {
+        if (R == &registries[1]) return 0;       // one move per case
+        std::vector<int> old = order, expect(order.rbegin(), order.rend());
+        R = &registries[1];
+        R->setCurrentRegistry(R);
+        for (int id : old) register_test((size_t)id);          // every shell still carries the next pointer of the first registry's list
+        install(0); install(1);                                 // the configuration in force goes with the tests
+        if (run_ignored && !through_runner) R->setRunIgnored();
+        if (sep_on) R->setRunTestsInSeperateProcess();
+        runs_on_current_registry = 0;
+        if (int rc = check_walk("after registering the same shells in a second registry", *R, present, order)) return rc;
+        V_CHECK(order == expect, "C02:second-registry", "second registry is %s, expected %s [%s]", show_ids(order).c_str(), show_ids(expect).c_str(), desc.c_str());
+        return 0;
+    };
+    if (readd_last && !order.empty()) {
+        if (int rc = undo_first("after undoing the last registration")) return rc;
+        if (int rc = register_checked(removed.back(), "after registering the undone shell again")) return rc;
+    }
+    if (second_registry) if (int rc = move_to_other_registry()) return rc;
     if (do_reverse) if (int rc = reverse_checked()) return rc;
     bool nonadjacent_repeat = false, adjacent_equal = false;
     size_t rep = 0;                              // index of the repetition being run / judged
@@ -423,9 +477,9 @@ int run_case(Reader& r, bool& nontrivial, std::string& desc) {
     std::vector<int> runner_expected_order;      // through the runner without shuffling: the order every repetition has to use
     g_runner_events.clear();
     // ---- immediately before the real runAllTests: the list must be sound, then the model for the configuration in force
-    reg.before = [&]() -> int {
+    R->before = [&]() -> int {
         if (through_runner) {
-            if (int rc = check_walk("at the start of a repetition driven by the runner", reg, present, order)) return rc;
+            if (int rc = check_walk("at the start of a repetition driven by the runner", *R, present, order)) return rc;
             if (!do_shuffle) V_CHECK(order == runner_expected_order, "C02:runner-order", "repetition %zu through the runner runs in order %s, expected %s (reverse=%d) [%s]",
                                      rep + 1, show_ids(order).c_str(), show_ids(runner_expected_order).c_str(), (int)do_reverse, desc.c_str());
         }
@@ -435,7 +489,7 @@ int run_case(Reader& r, bool& nontrivial, std::string& desc) {
         return 0;
     };
     // ---- immediately after it: everything the statement says about one repetition
-    reg.after = [&](TestResult& tr) -> int {
+    R->after = [&](TestResult& tr) -> int {
         std::vector<Ev> evs(g_runner_events.begin() + (long)ev_start, g_runner_events.end());
         size_t np = present.size();
         auto cfg = [&]() {   // only rendered when a check fails
@@ -446,7 +500,7 @@ int run_case(Reader& r, bool& nontrivial, std::string& desc) {
             return c + "})";
         };
         std::vector<int> after;
-        if (int rc = check_walk("after runAllTests", reg, present, after)) return rc;
+        if (int rc = check_walk("after runAllTests", *R, present, after)) return rc;
         V_CHECK(after == order, "C02:run-changed-order", "runAllTests changed the registry order: %s -> %s", show_ids(order).c_str(), show_ids(after).c_str());
 
         // execution counters
@@ -496,7 +550,8 @@ int run_case(Reader& r, bool& nontrivial, std::string& desc) {
         for (size_t i = 0; same && i < want.size(); i++) same = want[i].kind == evs[i].kind && want[i].id == evs[i].id;
         V_CHECK(same, "C02:callback-stream", "%s: callbacks %s expected %s [%s]", cfg().c_str(), render(evs).c_str(), render(want).c_str(), desc.c_str());
         V_CHECK(want_exec == g_exec_order, "C02:execution-order", "repetition %zu: executed %s expected %s", rep + 1, show_ids(g_exec_order).c_str(), show_ids(want_exec).c_str());
-        V_CHECK(reg.getCurrentRepetition() == (int)rep + 1, "C02:repetition-counter", "getCurrentRepetition()=%d after %zu runs", reg.getCurrentRepetition(), rep + 1);
+        runs_on_current_registry++;
+        V_CHECK(R->getCurrentRepetition() == (int)runs_on_current_registry, "C02:repetition-counter", "getCurrentRepetition()=%d after %zu runs of this registry", R->getCurrentRepetition(), runs_on_current_registry);
         for (int id : present) {   // the shell's own answer to "will this test run" follows the same rule
             bool want_will = !tests[(size_t)id].ignored || run_ignored;
             V_CHECK(shells[(size_t)id]->willRun() == want_will, "C02:willRun", "%s: after the run test #%d %s says willRun()=%d, expected %d [%s]",
@@ -507,6 +562,7 @@ int run_case(Reader& r, bool& nontrivial, std::string& desc) {
         rep++;
         return 0;
     };
+    { SpyRegistry* other = R == &registries[0] ? &registries[1] : &registries[0]; other->before = R->before; other->after = R->after; }   // both registries judge their runs the same way
     if (through_runner) {
         // the same configuration as an argument vector; the real runner loops, reverses, shuffles and hands the filters down
         std::vector<std::string> args; args.push_back("c02.exe");
@@ -522,15 +578,15 @@ int run_case(Reader& r, bool& nontrivial, std::string& desc) {
         std::vector<const char*> av; for (auto& a : args) av.push_back(a.c_str());
         runner_expected_order = order; if (do_reverse) std::reverse(runner_expected_order.begin(), runner_expected_order.end());
         int result;
-        { SpyRunner runner((int)av.size(), av.data(), &reg); result = runner.runAllTestsMain(); }
+        { SpyRunner runner((int)av.size(), av.data(), R); result = runner.runAllTestsMain(); }
         UtestShell::setRethrowExceptions(false);
-        if (reg.rc) return reg.rc;
-        V_CHECK(reg.calls == reps && rep == reps, "C02:runner-repetitions", "-r%zu made the runner call runAllTests %zu times [%s]", reps, reg.calls, desc.c_str());
+        if (R->rc) return R->rc;
+        V_CHECK(R->calls == reps && rep == reps, "C02:runner-repetitions", "-r%zu made the runner call runAllTests %zu times [%s]", reps, R->calls, desc.c_str());
         (void)result;
     }
     else for (size_t k = 0; k < reps; k++) {
         // ---- what happens to the long-lived registry between two runs
-        if (k > 0 && ri_mode >= 2 && k == ri_mode - 1 && !run_ignored) { reg.setRunIgnored(); run_ignored = true; }
+        if (k > 0 && ri_mode >= 2 && k == ri_mode - 1 && !run_ignored) { R->setRunIgnored(); run_ignored = true; }
         for (auto& c : changes[k]) {
             switch (c.kind) {
             case CH_REPLACE_FILTERS:
@@ -544,32 +600,34 @@ int run_case(Reader& r, bool& nontrivial, std::string& desc) {
             case CH_ADD_TESTS:
                 for (size_t i : c.new_tests) { register_test(i); present.push_back((int)i); }
                 std::sort(present.begin(), present.end());
-                if (int rc = check_walk("after addTest between runs", reg, present, order)) return rc;
+                if (int rc = check_walk("after addTest between runs", *R, present, order)) return rc;
                 break;
-            case CH_REMOVE_FIRST:
-                if (!order.empty()) {
-                    int gone = order[0];
-                    if (via_installer && !installers.empty()) installers.back()->unDo(); else reg.unDoLastAddTest();   // TestInstaller::unDo() == undo the last addTest of the current registry
-                    present.erase(std::find(present.begin(), present.end(), gone));
-                    std::vector<int> expect(order.begin() + 1, order.end());
-                    if (int rc = check_walk("after unDoLastAddTest between runs", reg, present, order)) return rc;
-                    V_CHECK(order == expect, "C02:remove-first", "unDoLastAddTest left %s, expected %s", show_ids(order).c_str(), show_ids(expect).c_str());
+            case CH_REMOVE_FIRST: if (!order.empty()) if (int rc = undo_first("after unDoLastAddTest between runs")) return rc; break;
+            case CH_READD_REMOVED: if (!removed.empty()) if (int rc = register_checked(removed.back(), "after registering a removed shell again between runs")) return rc; break;
+            case CH_MOVE_TO_OTHER_REGISTRY: if (int rc = move_to_other_registry()) return rc; break;
+            case CH_CHURN:
+                if (c.new_tests.size() == 2) {   // addTest(x); undo; addTest(y); addTest(x)
+                    int x = (int)c.new_tests[0], y = (int)c.new_tests[1];
+                    if (int rc = register_checked(x, "churn: after adding x")) return rc;
+                    if (int rc = undo_first("churn: after undoing x")) return rc;
+                    if (int rc = register_checked(y, "churn: after adding y")) return rc;
+                    if (int rc = register_checked(x, "churn: after adding x again")) return rc;
                 }
                 break;
             case CH_REVERSE: if (int rc = reverse_checked()) return rc; break;
-            case CH_RUN_IGNORED_ON: reg.setRunIgnored(); run_ignored = true; break;
-            case CH_SEP_PROCESS_ON: reg.setRunTestsInSeperateProcess(); sep_on = true; break;
+            case CH_RUN_IGNORED_ON: R->setRunIgnored(); run_ignored = true; break;
+            case CH_SEP_PROCESS_ON: R->setRunTestsInSeperateProcess(); sep_on = true; break;
             default: break;
             }
         }
         if (do_shuffle) {
-            reg.shuffleTests(seed);
-            if (int rc = check_walk("after shuffleTests", reg, present, order)) return rc;
+            R->shuffleTests(seed);
+            if (int rc = check_walk("after shuffleTests", *R, present, order)) return rc;
         }
         RecOutput out(g_runner_events);
         TestResult tr(out);
-        reg.runAllTests(tr);
-        if (reg.rc) return reg.rc;
+        R->runAllTests(tr);
+        if (R->rc) return R->rc;
     }
     if (adjacent_equal) verif::cls("groups:adjacent-equal");
     if (nonadjacent_repeat) verif::cls("groups:same-group-in-two-runs");
